@@ -312,7 +312,8 @@ def setup(ses, rep):
 # ------------------------------------------------------------------------------------------------ replay
 U, F_ = clireplay.UNFORMATTED, clireplay.FORMATTED
 TREE = {"a.lua": U, "b.txt": U, ".hidden.lua": U, "sub/c.lua": U, "sub/.dot/e.lua": U, "vendor/d.lua": U, "vendor/keep.lua": U, ".styluaignore": "vendor/\n!vendor/keep.lua\n",
-        "sub/.styluaignore": "skipme.lua\n", "sub/skipme.lua": U, "notes.md": "local   x   =   1\n", "sub/readme.txt": U, "other/z.lua": U}
+        "sub/.styluaignore": "skipme.lua\n", "sub/skipme.lua": U, "notes.md": "local   x   =   1\n", "sub/readme.txt": U, "other/z.lua": U,
+        "sub/defs.luau": U, "deep/.styluaignore": "inner/gen/\nskip.lua\n", "deep/inner/gen/out.lua": U, "deep/inner/main.lua": U, "deep/inner/skip.lua": U}
 
 
 def fmt(r):
@@ -320,20 +321,22 @@ def fmt(r):
 
 
 SCENARIOS = [
-    ("walk", ["."], ["a.lua", "other/z.lua", "sub/c.lua"]),
-    ("walk-allow-hidden", ["--allow-hidden", "."], [".hidden.lua", "a.lua", "other/z.lua", "sub/.dot/e.lua", "sub/c.lua"]),
+    ("walk", ["."], ["a.lua", "deep/inner/main.lua", "other/z.lua", "sub/c.lua"]),
+    ("walk-allow-hidden", ["--allow-hidden", "."], [".hidden.lua", "a.lua", "deep/inner/main.lua", "other/z.lua", "sub/.dot/e.lua", "sub/c.lua"]),
     ("explicit-ignored", ["vendor/d.lua"], ["vendor/d.lua"]),
     ("explicit-ignored-respect", ["--respect-ignores", "vendor/d.lua"], []),
     ("explicit-non-lua", ["b.txt"], ["b.txt"]),
     ("explicit-non-lua-respect", ["--respect-ignores", "b.txt"], []),
     ("explicit-nested-ignore-respect", ["--respect-ignores", "sub/skipme.lua"], []),
     ("explicit-nested-ignore", ["sub/skipme.lua"], ["sub/skipme.lua"]),
-    ("overlapping", [".", "a.lua", "sub", "sub/c.lua", "a.lua"], ["a.lua", "other/z.lua", "sub/c.lua"]),
+    ("overlapping", [".", "a.lua", "sub", "sub/c.lua", "a.lua"], ["a.lua", "deep/inner/main.lua", "other/z.lua", "sub/c.lua"]),
     ("glob", ["-g", "*.txt", "."], ["b.txt", "sub/readme.txt"]),
+    ("dir-below-an-ignore-file", ["deep/inner"], ["deep/inner/main.lua"]),
+    ("dir-below-an-ignore-file-slash", ["./deep/inner/"], ["deep/inner/main.lua"]),
     ("dir-and-ignored-file", ["sub", "vendor/d.lua"], ["sub/c.lua", "vendor/d.lua"]),
     ("dir-then-explicit-non-lua-inside", ["sub", "sub/readme.txt"], ["sub/c.lua", "sub/readme.txt"]),
     ("explicit-non-lua-then-dir", ["sub/readme.txt", "sub"], ["sub/c.lua", "sub/readme.txt"]),
-    ("cwd-then-explicit-non-lua", [".", "b.txt"], ["a.lua", "b.txt", "other/z.lua", "sub/c.lua"]),
+    ("cwd-then-explicit-non-lua", [".", "b.txt"], ["a.lua", "b.txt", "deep/inner/main.lua", "other/z.lua", "sub/c.lua"]),
     ("respect-several-dirs", ["--respect-ignores", "a.lua", "sub/skipme.lua", "sub/c.lua"], ["a.lua", "sub/c.lua"]),
     ("respect-several-dirs-reversed", ["--respect-ignores", "sub/skipme.lua", "sub/c.lua", "a.lua"], ["a.lua", "sub/c.lua"]),
     ("respect-nested-then-root-pattern", ["--respect-ignores", "sub/c.lua", "vendor/d.lua"], ["sub/c.lua"]),
@@ -350,10 +353,10 @@ CWD_SCENARIOS = [
     ("absolute-outside-cwd", ["{ROOT}/a.lua"], "sub", ["a.lua"]),
 ]
 ONCE_SCENARIOS = [
-    ("once-cwd-and-file", [".", "a.lua"], ["a.lua", "other/z.lua", "sub/c.lua"]),
+    ("once-cwd-and-file", [".", "a.lua"], ["a.lua", "deep/inner/main.lua", "other/z.lua", "sub/c.lua"]),
     ("once-dir-and-dotted-file", ["sub", "./sub/c.lua", "sub/c.lua"], ["sub/c.lua"]),
     ("once-repeated", ["a.lua", "a.lua", "./a.lua"], ["a.lua"]),
-    ("once-cwd-and-explicit-non-lua", [".", "b.txt"], ["a.lua", "b.txt", "other/z.lua", "sub/c.lua"]),
+    ("once-cwd-and-explicit-non-lua", [".", "b.txt"], ["a.lua", "b.txt", "deep/inner/main.lua", "other/z.lua", "sub/c.lua"]),
 ]
 
 
@@ -381,7 +384,7 @@ def battery():
 
 KIND2SCEN = {"dedup-key": [s_[0] for s_ in ONCE_SCENARIOS], "ignore-root": [s_[0] for s_ in CWD_SCENARIOS],
              "ignore": ["explicit-ignored-respect", "explicit-nested-ignore-respect", "respect-several-dirs", "respect-several-dirs-reversed", "respect-nested-then-root-pattern"],
-             "setup": ["walk", "walk-allow-hidden", "glob", "overlapping", "dir-and-ignored-file"],
+             "setup": ["walk", "walk-allow-hidden", "glob", "overlapping", "dir-and-ignored-file", "dir-below-an-ignore-file", "dir-below-an-ignore-file-slash"],
              "dedup": ["overlapping"], "select": [s[0] for s in SCENARIOS]}
 
 
